@@ -66,6 +66,13 @@ func Scenarios(r *ev.Run, withDry bool) []*Scenario {
 		{Name: "annotations-w3", Workers: 3, IDs: w3, Kinds: []fx.Kind{fx.SpanEvent, fx.Link, fx.Root}, Samplers: []func() any{det(2)}, KeptPerWorker: 4,
 			Traces: traces, Advances: advances[1:], EjectBytes: []int{-1}, Depth: q(5, 6), MaxSpansPerTrace: 3, MaxAdv: 1, MaxReloads: 0, Maintain: false},
 	}
+	// a per-tick decision quota: with MaxExpiredTraces=1 and three traces of one worker expiring together, every
+	// tick decides exactly one of them and the rest must stay in line (C02: every accepted span's trace is
+	// eventually decided; C01: and its decision is applied to all its spans)
+	quota := traces
+	quota.MaxExpiredTraces = 1
+	out = append(out, &Scenario{Name: "max-expired-1-w1", Workers: 1, IDs: w1, Kinds: rc, Samplers: []func() any{det(1)}, KeptPerWorker: 4,
+		Traces: quota, Advances: advances[:1], EjectBytes: []int{-1}, Depth: q(6, 7), MaxSpansPerTrace: 2, MaxAdv: 2, MaxReloads: 0})
 	if withDry {
 		out = append(out, &Scenario{Name: "dryrun-w1", Workers: 1, IDs: w1[:2], Kinds: rc, Samplers: []func() any{det(2), det(1)}, KeptPerWorker: 4, DryRun: true,
 			Traces: traces, Advances: advances[:1], EjectBytes: []int{-1}, Depth: q(6, 7), MaxSpansPerTrace: 3, MaxAdv: 1, MaxReloads: 1})
